@@ -50,6 +50,9 @@ def gen_item(seed, tier):
     target = tg.root()
     wild = rng.random() < 0.12
     segs, style = _mut.gen_segs(rng, target, allow_wild=wild)
+    if rng.random() < 0.06:
+        target = tg.hetero_root()
+        segs, style = _mut.hetero_segs(rng)
     missing = rng.choice(MISSING) if not _mut.pathedit.has_wild(segs) else None
     r = rng.random()
     if r < 0.5:
